@@ -26,8 +26,8 @@
 use crate::gen::*;
 use crate::json::J;
 use crate::model::Model;
-use crate::sys::{script_from_text, script_to_text, Acc, Cfg, Op};
-use crate::util::{fresh_dir, Key, Rng};
+use crate::sys::{script_from_text, script_to_text, Acc, Cfg, Op, ValDesc};
+use crate::util::{fresh_dir, hex, unhex, value_bytes, Key, Rng};
 use std::collections::{BTreeMap, HashMap};
 use std::path::Path;
 
@@ -119,7 +119,9 @@ pub fn gen_history(rng: &mut Rng, thorough: bool, idx: usize) -> History {
                 let newv = if commits > 0 && rng.chance(1, 10) {
                     None
                 } else {
-                    Some((*rng.pick(&VAL_SIZES) + rng.below(30) as usize, rng.next() % 1_000_000))
+                    // one value in eight is EMPTY (length 0): a later write of the key logs the prior `Some([])`
+                    let len = if rng.chance(1, 8) { 0 } else { *rng.pick(&VAL_SIZES) + rng.below(30) as usize };
+                    Some((len, rng.next() % 1_000_000))
                 };
                 let acc = if rng.chance(1, 5) { Acc::ReadWrite(newv) } else { Acc::Write(newv) };
                 batch.insert(key, acc);
@@ -269,9 +271,32 @@ pub struct Translation {
     pub events_dropped: usize,
     pub foreign_writes: usize,
     pub payload_bytes: Vec<u64>, // payload length of every record appended
+    pub records: Vec<RecInfo>,   // every record appended, with its payload cut out of the reconstruction
     pub max_segments: usize,
     pub files: BTreeMap<u32, Vec<u8>>, // final reconstructed contents
     pub unsupported: Vec<String>,
+}
+
+/// a record appended to a segment file (12-byte header at a block boundary + payload)
+pub struct RecInfo {
+    pub window: Option<usize>, // index of the armed window (= armed operation) that appended it
+    pub seg: u32,
+    pub off: u64,
+    pub plen: u64,
+    pub rid: u64,
+    pub payload: Option<Vec<u8>>, // filled in when the window closes (all of its bytes were written by then)
+}
+
+/// cut the payloads of the records appended so far out of the reconstructed files
+fn resolve_payloads(records: &mut [RecInfo], files: &BTreeMap<u32, Vec<u8>>) {
+    for r in records.iter_mut().filter(|r| r.payload.is_none()) {
+        let (a, b) = ((r.off + 12) as usize, (r.off + 12 + r.plen) as usize);
+        if let Some(f) = files.get(&r.seg) {
+            if f.len() >= b {
+                r.payload = Some(f[a..b].to_vec());
+            }
+        }
+    }
 }
 
 struct Window {
@@ -294,7 +319,7 @@ fn translate(parsed: &Parsed, spool: &Path, armed_ops: &[String], work: &Path, m
     let mut last_append: HashMap<u32, (u64, u64)> = HashMap::new(); // seg -> (offset, length) of the record being written
     let mut text = String::new();
     text.push_str("# translated I/O trace of the rollback log (format: ocaml/rb_cmds.ml); starting disk: no segment file\n");
-    let mut tr = Translation { text: String::new(), syncs: vec![], empty_windows: 0, empty_ops: vec![], events_tracked: 0, events_dropped: 0, foreign_writes: 0, payload_bytes: vec![], max_segments: 0, files: BTreeMap::new(), unsupported: vec![] };
+    let mut tr = Translation { text: String::new(), syncs: vec![], empty_windows: 0, empty_ops: vec![], events_tracked: 0, events_dropped: 0, foreign_writes: 0, payload_bytes: vec![], records: vec![], max_segments: 0, files: BTreeMap::new(), unsupported: vec![] };
     let mut win: Option<Window> = None;
     let mut n_windows = 0usize;
     for it in &parsed.items {
@@ -305,6 +330,7 @@ fn translate(parsed: &Parsed, spool: &Path, armed_ops: &[String], work: &Path, m
                 win = Some(Window { op, snap: files.clone(), old_meta: meta, evs: vec![] });
             }
             Item::Disarm => {
+                resolve_payloads(&mut tr.records, &files);
                 let Some(w) = win.take() else { continue };
                 if w.evs.is_empty() {
                     tr.empty_windows += 1;
@@ -399,6 +425,7 @@ fn translate(parsed: &Parsed, spool: &Path, armed_ops: &[String], work: &Path, m
                             let blocks = (12 + plen + BLK - 1) / BLK;
                             last_append.insert(sg, (*off, blocks * BLK));
                             tr.payload_bytes.push(plen);
+                            tr.records.push(RecInfo { window: if win.is_some() { Some(n_windows - 1) } else { None }, seg: sg, off: *off, plen, rid, payload: None });
                             evs.push((format!("A {} {} {} {}", sg, off / BLK, rid, blocks), false));
                         } else if last_append.get(&sg).map_or(false, |la| *off >= la.0 + 12 && end as u64 <= la.0 + la.1) {
                             // payload of the record whose header was just written
@@ -483,6 +510,7 @@ fn translate(parsed: &Parsed, spool: &Path, armed_ops: &[String], work: &Path, m
             }
         }
     }
+    resolve_payloads(&mut tr.records, &files);
     tr.text = text;
     tr.files = files;
     tr
@@ -562,6 +590,13 @@ pub struct HistOutcome {
     pub mutants_accepted: Vec<String>,
     pub model_s: f64,
     pub child_s: f64,
+    // the delta codec on the real records (DeltaCodec.v)
+    pub delta_records_decoded: usize,
+    pub delta_entries_compared: usize,
+    pub delta_empty_priors_seen: usize,
+    pub delta_absent_priors_seen: usize,
+    pub delta_payload_max: usize,
+    pub delta_sample: Vec<String>,
 }
 
 fn kv_of(line: &str) -> HashMap<String, String> {
@@ -654,6 +689,203 @@ fn self_contained(text: &str, recs: &[Vec<String>], upto: Option<usize>) -> Stri
     t
 }
 
+// ------------------------------------------------------------------------------------------
+// the delta codec on the real records (properties C09 / C10; coq/theories/DeltaCodec.v)
+// ------------------------------------------------------------------------------------------
+
+/// What every commit of the history must have logged: armed window -> (operation, key -> prior) for
+/// the keys the commit WROTE (Write / ReadWrite entries of its `Finish` batch; reads are not in the
+/// delta), the prior taken from a plain map maintained while walking the script.  A stack of maps
+/// makes `rollback n` restore the map of n commits ago (a rollback the handle has not enough deltas
+/// for fails without changing anything, as in `expected_failures`).
+fn expected_deltas(ops: &[Op]) -> BTreeMap<usize, (String, BTreeMap<Key, Option<ValDesc>>)> {
+    let mut out = BTreeMap::new();
+    let mut cur: BTreeMap<Key, ValDesc> = BTreeMap::new();
+    let mut stack: Vec<BTreeMap<Key, ValDesc>> = Vec::new();
+    let mut finished: HashMap<u32, Vec<(Key, Acc)>> = HashMap::new();
+    let (mut avail, mut ml) = (0usize, usize::MAX);
+    let mut windows = 0usize; // armed windows opened so far
+    for o in ops {
+        match o {
+            Op::Open(c) => ml = c.max_len as usize,
+            Op::Arm => windows += 1,
+            Op::Finish { c, batch, .. } => {
+                finished.insert(*c, batch.clone());
+            }
+            Op::Commit { c, .. } => {
+                let Some(batch) = finished.remove(c) else { continue };
+                let before = cur.clone();
+                let mut exp: BTreeMap<Key, Option<ValDesc>> = BTreeMap::new();
+                for (k, a) in &batch {
+                    let (Acc::Write(nv) | Acc::ReadWrite(nv)) = a else { continue };
+                    exp.insert(*k, before.get(k).copied());
+                    match nv {
+                        Some(d) => {
+                            cur.insert(*k, *d);
+                        }
+                        None => {
+                            cur.remove(k);
+                        }
+                    }
+                }
+                stack.push(before);
+                avail = (avail + 1).min(ml);
+                if windows > 0 {
+                    out.insert(windows - 1, (o.to_line(), exp));
+                }
+            }
+            Op::Rollback(n) => {
+                if *n <= avail {
+                    for _ in 0..*n {
+                        if let Some(m) = stack.pop() {
+                            cur = m;
+                        }
+                    }
+                    avail -= n;
+                }
+            }
+            _ => {}
+        }
+    }
+    out
+}
+
+/// self-test of check (c), the seeded change C10-x3 applied to the BYTES of a record: every entry of the
+/// reinstate group whose value is empty is filed under "erase" instead (None when the payload is not in
+/// the documented layout)
+fn refile_empty_values_as_erase(p: &[u8]) -> Option<Vec<u8>> {
+    let u32_at = |i: usize| -> Option<usize> { Some(u32::from_le_bytes(p.get(i..i + 4)?.try_into().ok()?) as usize) };
+    let n1 = u32_at(0)?;
+    let mut erase: Vec<&[u8]> = (0..n1).map(|i| p.get(4 + 32 * i..36 + 32 * i)).collect::<Option<_>>()?;
+    let mut at = 4 + 32 * n1;
+    let n2 = u32_at(at)?;
+    at += 4;
+    let mut keep: Vec<(&[u8], &[u8])> = Vec::new();
+    for _ in 0..n2 {
+        let k = p.get(at..at + 32)?;
+        let l = u32_at(at + 32)?;
+        let v = p.get(at + 36..at + 36 + l)?;
+        at += 36 + l;
+        if l == 0 {
+            erase.push(k);
+        } else {
+            keep.push((k, v));
+        }
+    }
+    let mut o = (erase.len() as u32).to_le_bytes().to_vec();
+    erase.iter().for_each(|k| o.extend_from_slice(k));
+    o.extend_from_slice(&(keep.len() as u32).to_le_bytes());
+    for (k, v) in keep {
+        o.extend_from_slice(k);
+        o.extend_from_slice(&(v.len() as u32).to_le_bytes());
+        o.extend_from_slice(v);
+    }
+    Some(o)
+}
+
+/// Every record appended during the history goes through the extracted decoder (`deltadec`,
+/// ocaml/delta_cmds.ml): (a) it decodes, (b) encoding the decoded groups again in the decoded order
+/// gives the payload back, (c) the decoded map is the reverse delta of the commit that appended it.
+fn check_deltas(h: &History, prefix: &str, work: &Path, tr: &Translation, model: &mut Model, out: &mut HistOutcome, sabotage: Option<&str>) {
+    let expected = expected_deltas(&h.ops);
+    let mut seen: HashMap<String, usize> = HashMap::new();
+    let mut report = |out: &mut HistOutcome, kind: &str, d: String| {
+        let c = seen.entry(kind.to_string()).or_default();
+        *c += 1;
+        if *c <= 3 {
+            out.violations.push((format!("{}-rb-delta-{}", prefix, kind), d.clone(), replay_text(h, None, &d, "")));
+        }
+    };
+    let short = |b: &[u8]| -> String { if b.len() <= 16 { hex(b) } else { format!("{}..({} bytes)", hex(&b[..16]), b.len()) } };
+    let mut by_window: BTreeMap<usize, usize> = BTreeMap::new();
+    for r in &tr.records {
+        let ctx = format!("record {} (segment {}, offset {}, payload {} bytes)", r.rid, r.seg, r.off, r.plen);
+        let Some((op, exp)) = r.window.and_then(|w| expected.get(&w)) else {
+            report(out, "content", format!("{} was appended outside the commits of the history (armed window {:?})", ctx, r.window));
+            continue;
+        };
+        *by_window.entry(r.window.unwrap()).or_default() += 1;
+        let ctx = format!("{} appended by `{}` (armed window {})", ctx, op, r.window.unwrap());
+        let Some(payload) = &r.payload else {
+            report(out, "decode", format!("{}: the payload was not completely written when the operation returned", ctx));
+            continue;
+        };
+        let payload: Vec<u8> = if sabotage == Some("delta") { refile_empty_values_as_erase(payload).unwrap_or_else(|| payload.clone()) } else { payload.clone() };
+        let pfile = work.join("delta.bin");
+        std::fs::write(&pfile, &payload).unwrap();
+        let reply = model.ask_multi(&format!("deltadec {}", pfile.display()));
+        let head = reply.first().cloned().unwrap_or_default();
+        // (a) the record decodes
+        if !head.starts_with("delta ok ") {
+            report(out, "decode", format!("{}: the extracted decoder (DeltaCodec.decode_groups) answers `{}`; payload {}", ctx, head, short(&payload)));
+            continue;
+        }
+        out.delta_records_decoded += 1;
+        out.delta_payload_max = out.delta_payload_max.max(payload.len());
+        // (b) encode_groups of the decoded groups, in the decoded order, is the payload
+        let kv = kv_of(&head);
+        if kv.get("reencode").map(|s| s.as_str()) != Some("ok") || kv.get("rest").map(|s| s.as_str()) != Some("0") {
+            report(out, "reencode", format!("{}: encoding the decoded delta in the decoded order does not reproduce the payload: {}", ctx, head));
+        }
+        // (c) the decoded map against the history's map
+        let mut dec: BTreeMap<Key, Option<Vec<u8>>> = BTreeMap::new();
+        let mut malformed = false;
+        for l in reply.iter().skip(1) {
+            let t: Vec<&str> = l.split(' ').collect();
+            let key = |s: &str| -> Option<Key> { unhex(s).try_into().ok() };
+            let dup = match (t[0], t.len()) {
+                ("e", 2) => key(t[1]).map(|k| dec.insert(k, None).is_some()),
+                ("r", 4) => key(t[1]).map(|k| dec.insert(k, Some(unhex(t[3]))).is_some()),
+                ("r", 3) if t[2] == "0" => key(t[1]).map(|k| dec.insert(k, Some(Vec::new())).is_some()), // the empty value (the line arrives trimmed)
+                _ => None,
+            };
+            malformed |= dup != Some(false);
+        }
+        if malformed {
+            report(out, "content", format!("{}: the decoder's answer is not a map of 32-byte keys: {:?}", ctx, reply.iter().take(3).collect::<Vec<_>>()));
+            continue;
+        }
+        let show = |p: &Option<Vec<u8>>| match p {
+            None => "None (the key did not exist)".to_string(),
+            Some(v) => format!("Some({} bytes: {})", v.len(), short(v)),
+        };
+        let mut diffs: Vec<String> = Vec::new();
+        for (k, want) in exp {
+            let want: Option<Vec<u8>> = want.map(|d| value_bytes(d.0, d.1));
+            out.delta_entries_compared += 1;
+            match dec.get(k) {
+                None => diffs.push(format!("key {} was written by the commit but is not in the delta", hex(k))),
+                Some(got) => {
+                    match got {
+                        None => out.delta_absent_priors_seen += 1,
+                        Some(v) if v.is_empty() => out.delta_empty_priors_seen += 1,
+                        _ => {}
+                    }
+                    if *got != want {
+                        diffs.push(format!("key {}: the record holds the prior {}, the key's value before the commit was {}", hex(k), show(got), show(&want)));
+                    }
+                }
+            }
+        }
+        for k in dec.keys().filter(|k| !exp.contains_key(*k)) {
+            diffs.push(format!("key {} is in the delta but was not written by the commit", hex(k)));
+        }
+        if !diffs.is_empty() {
+            report(out, "content", format!("{}: the decoded delta is not the reverse delta of the commit ({} differences): {}", ctx, diffs.len(), diffs.iter().take(3).cloned().collect::<Vec<_>>().join("; ")));
+        } else if out.delta_sample.is_empty() && dec.values().any(|v| v.is_none()) && dec.values().any(|v| v.as_ref().map_or(false, |v| v.is_empty())) {
+            out.delta_sample = vec![ctx.clone(), head.clone()];
+            out.delta_sample.extend(reply.iter().skip(1).map(|l| l.chars().take(120).collect::<String>()));
+        }
+    }
+    // every commit logs exactly one record
+    for (w, (op, _)) in &expected {
+        let n = by_window.get(w).copied().unwrap_or(0);
+        if n != 1 {
+            report(out, "content", format!("`{}` (armed window {}) appended {} records to the rollback log, expected exactly one", op, w, n));
+        }
+    }
+}
+
 fn run_history_in(h: &History, prefix: &str, work: &Path, out: &mut HistOutcome, opts: &RunOpts) {
     let db = work.join("db");
     let spool = work.join("spool");
@@ -683,7 +915,7 @@ fn run_history_in(h: &History, prefix: &str, work: &Path, out: &mut HistOutcome,
         if !matches!(h.ops.get(i), Some(Op::Commit { .. }) | Some(Op::Rollback(_))) || t[2].starts_with("ok") {
             continue;
         }
-        if expected.contains(&i) && t[2].contains("not enough logged") {
+        if expected.contains(&i) && t[2].starts_with("err") && t[2].contains("poisoned=0") {
             continue;
         }
         let d = format!("operation {} of the history ({}) failed in a fault-free run: {}", i, h.ops[i].to_line().chars().take(40).collect::<String>(), t[2].chars().take(300).collect::<String>());
@@ -753,6 +985,7 @@ fn run_history_in(h: &History, prefix: &str, work: &Path, out: &mut HistOutcome,
         std::fs::write(format!("{}/{}.trace", d, opts.index), self_contained(&tr.text, &recs, None)).ok();
         std::fs::write(format!("{}/{}.verdicts", d, opts.index), verdicts.join("\n") + "\n").ok();
     }
+    check_deltas(h, prefix, work, &tr, &mut model, out, opts.sabotage.as_deref());
     let mut failing: Vec<(usize, String, String)> = Vec::new();
     let mut targets: Vec<usize> = Vec::new();
     for (si, line) in tr.syncs.iter().zip(verdicts.iter()) {
@@ -1003,6 +1236,8 @@ pub fn cmd_rbtrace(kv: &HashMap<String, String>) -> i32 {
     let (mut pmin, mut pmax) = (u64::MAX, 0u64);
     let (mut model_s, mut child_s) = (0.0, 0.0);
     let (mut mutants, mut mutants_rejected) = (0usize, 0usize);
+    let (mut d_records, mut d_entries, mut d_empty, mut d_absent, mut d_pmax) = (0usize, 0usize, 0usize, 0usize, 0usize);
+    let mut d_sample: Vec<J> = Vec::new();
     let mut accepted: Vec<J> = Vec::new();
     let mut n_accepted = 0usize;
     let mut noio_notes: Vec<J> = Vec::new();
@@ -1039,6 +1274,14 @@ pub fn cmd_rbtrace(kv: &HashMap<String, String>) -> i32 {
         }
         mutants += o.mutants;
         mutants_rejected += o.mutants_rejected;
+        d_records += o.delta_records_decoded;
+        d_entries += o.delta_entries_compared;
+        d_empty += o.delta_empty_priors_seen;
+        d_absent += o.delta_absent_priors_seen;
+        d_pmax = d_pmax.max(o.delta_payload_max);
+        if d_sample.is_empty() && !o.delta_sample.is_empty() {
+            d_sample = o.delta_sample.iter().map(|s| J::s(s.clone())).collect();
+        }
         for (k, v) in &o.mutant_clauses {
             *mutant_clauses.entry(k.clone()).or_default() += v;
         }
@@ -1100,6 +1343,13 @@ pub fn cmd_rbtrace(kv: &HashMap<String, String>) -> i32 {
             ("mutants_rejected_by_clause", J::Obj(mutant_clauses.iter().map(|(k, v)| (k.clone(), J::Int(*v as i64))).collect())),
             ("harness_self_check_failures_mutants_accepted", J::Int(n_accepted as i64)),
             ("harness_self_check_failures_first_cases", J::Arr(accepted)),
+            ("delta_records_decoded", J::Int(d_records as i64)),
+            ("delta_entries_compared", J::Int(d_entries as i64)),
+            ("delta_empty_priors_seen", J::Int(d_empty as i64)),
+            ("delta_absent_priors_seen", J::Int(d_absent as i64)),
+            ("delta_payload_bytes_max", J::Int(d_pmax as i64)),
+            ("delta_rule", J::s("every record appended to the rollback log during a history: the payload (cut out of the segment files reconstructed from the observed writes) is decoded by the extracted DeltaCodec.decode_groups; it must decode, DeltaCodec.reencodes (encode_groups of the decoded groups in the decoded order = the payload) must hold with nothing left in the cursor, and the decoded map must be the reverse delta of the commit that appended it: its keys = the keys the commit wrote, each prior = the key's value before the commit in the map the harness maintains along the script (stack of maps for rollbacks); every commit appends exactly one record")),
+            ("delta_sample_record", J::Arr(d_sample)),
             ("child_seconds_total", J::Num(child_s)),
             ("model_seconds_total", J::Num(model_s)),
         ])),
